@@ -308,7 +308,8 @@ Inductive node_spec :=
 | NDistinct
 | NLimit (n : Z)
 | NOst (ks : list (bool * expr)) (limit : option Z) (noretr : bool)
-| NPrinter (ks : list (bool * expr)) (limit : option Z) (noretr : bool).
+| NPrinter (ks : list (bool * expr)) (limit : option Z) (noretr : bool)
+| NPipe (below above : node_spec).          (* [above] built over [below]: a pipeline of nodes *)
 
 Inductive observation :=
 | ObsEvents (l : list event)      (* node ran to the end: everything it emitted *)
@@ -330,17 +331,7 @@ Definition obs_of_events (o : outcome (list event)) : observation :=
 Definition obs_of_rows (o : outcome (list row)) : observation :=
   match o with Ok l => ObsRows l | Err _ => ObsErr | Panic _ => ObsPanic end.
 
-Definition node_params_ok (arity : nat) (nd : node_spec) (inp : list event) : bool :=
-  match nd with
-  | NFilter e => expr_ok arity e
-  | NMap es => forallb (expr_ok arity) es
-  | NUnnest i => (i <? arity)%nat
-  | NLookup table a b => (b <? arity)%nat && forallb (fun r => (a <? length (vals r))%nat) (records table)
-  | NDistinct | NLimit _ => true
-  | NOst ks _ _ | NPrinter ks _ _ => forallb (fun k => expr_ok arity (snd k)) ks
-  end.
-
-Definition run_node (nd : node_spec) (inp : list event) : observation :=
+Definition run_node1 (nd : node_spec) (inp : list event) : observation :=
   match nd with
   | NFilter e => ObsEvents (run_filter (eval e) inp)
   | NMap es => ObsEvents (run_map (map eval es) inp)
@@ -350,6 +341,33 @@ Definition run_node (nd : node_spec) (inp : list event) : observation :=
   | NLimit n => ObsEvents (run_limit n inp)
   | NOst ks limit noretr => obs_of_events (run_ost (okeys_of ks) limit noretr inp)
   | NPrinter ks limit noretr => obs_of_rows (run_printer (okeys_of ks) limit noretr inp)
+  | NPipe _ _ => ObsPanic
+  end.
+(* a pipeline: what the lower node emits is the input of the upper one; an error or panic below ends the run *)
+Fixpoint run_node (nd : node_spec) (inp : list event) : observation :=
+  match nd with
+  | NPipe a b => match run_node a inp with ObsEvents mid => run_node b mid | o => o end
+  | _ => run_node1 nd inp
+  end.
+
+Definition first_arity (l : list rec) : nat := match l with r :: _ => length (vals r) | [] => 0%nat end.
+Fixpoint node_params_ok (arity : nat) (nd : node_spec) (inp : list event) : bool :=
+  match nd with
+  | NFilter e => expr_ok arity e
+  | NMap es => forallb (expr_ok arity) es
+  | NUnnest i => (i <? arity)%nat
+  | NLookup table a b => (b <? arity)%nat && forallb (fun r => (a <? length (vals r))%nat) (records table)
+  | NDistinct | NLimit _ => true
+  | NOst ks _ _ | NPrinter ks _ _ => forallb (fun k => expr_ok arity (snd k)) ks
+  | NPipe a b =>
+      node_params_ok arity a inp &&
+      match run_node a inp with
+      | ObsEvents mid =>
+          let ar := first_arity (records mid) in
+          arity_ok (Z.of_nat ar) (records mid) &&
+          (match records mid with [] => true | _ => node_params_ok ar b mid end)
+      | _ => true
+      end
   end.
 
 (* (arity, node, input script, observation) *)
@@ -360,8 +378,13 @@ Definition c15_tie (c : c15_case) : bool :=
   arity_ok (Z.of_nat arity) (records inp) && node_params_ok arity nd inp && obs_eqb (run_node nd inp) ob.
 
 (* the batch result the consolidated output must equal, computed from the consolidated input only *)
-Definition batch_of (nd : node_spec) (rows : list row) : option (list rec) :=
+Fixpoint batch_of (nd : node_spec) (rows : list row) : option (list rec) :=
   match nd with
+  | NPipe a b =>
+      match batch_of a rows with
+      | Some l => if forallb (fun r => negb (retr r)) l then batch_of b (map vals l) else None
+      | None => None
+      end
   | NFilter e => Some (bag_filter (eval e) rows)
   | NMap es => Some (bag_map (map eval es) rows)
   | NUnnest i => Some (bag_unnest i rows)
@@ -373,9 +396,10 @@ Definition batch_of (nd : node_spec) (rows : list row) : option (list rec) :=
 Definition insert_only (l : list rec) : bool := forallb (fun r => negb (retr r)) l.
 Definition rows_of (l : list event) : list row := map vals (records l).
 (* does the node promise a valid output changelog for this input?  (LookupJoin: when the joined side only inserts) *)
-Definition promises_valid (nd : node_spec) : bool :=
+Fixpoint promises_valid (nd : node_spec) : bool :=
   match nd with
   | NLookup table _ _ => insert_only (records table)
+  | NPipe a b => promises_valid a && promises_valid b
   | _ => true
   end.
 
@@ -394,7 +418,8 @@ Definition c15_spec (c : c15_case) : bool :=
       end &&
       match nd with
       | NOst ks None _ => insert_only (records out) && sorted_by (okeys_of ks) (map vals (records out))
-      | NLimit n => (n <? 0) || (Z.of_nat (length (records out)) <=? n)
+      | NLimit n | NPipe _ (NLimit n) => (n <? 0) || (Z.of_nat (length (records out)) <=? n)
+      | NPipe _ (NOst ks None _) => insert_only (records out) && sorted_by (okeys_of ks) (map vals (records out))
       | _ => true
       end
   | ObsRows out =>
